@@ -458,8 +458,17 @@ func c06History(t *testing.T, rep *vfReport, r *vfRng, nOps int) (ops, impl []st
 	script := []string{}
 	if r.Chance(45) {
 		script = []string{"write", "rstart", "capture"}
-		if r.Chance(50) {
+		switch r.Intn(3) {
+		case 0:
 			script = []string{"write", "write", "rstart", "capture", "rstop", "write", "capture"}
+		case 1:
+			// consecutive partial checkpoints on ONE WAL generation: overlapping readers keep
+			// the WAL from being reset, every capture resumes where the previous one stopped
+			script = []string{"write", "rstart", "capture", "write", "rstart", "rstop-first", "capture", "write"}
+			for k := r.Intn(3); k > 0; k-- {
+				script = append(script, "rstart", "rstop-first", "capture", "write")
+			}
+			script = append(script, "rstop-first", "capture")
 		}
 	}
 	for i := 0; i < nOps; i++ {
@@ -509,7 +518,7 @@ func c06History(t *testing.T, rep *vfReport, r *vfRng, nOps int) (ops, impl []st
 			hist = append(hist, fmt.Sprintf("R+%d", nextReader))
 			rep.Count("reader-start")
 			emit(fmt.Sprintf("rstart %d", nextReader), "ok")
-		case "rstop":
+		case "rstop", "rstop-first":
 			if len(e.readers) == 0 {
 				continue
 			}
@@ -520,6 +529,9 @@ func c06History(t *testing.T, rep *vfReport, r *vfRng, nOps int) (ops, impl []st
 				}
 			}
 			id := ids[r.Intn(len(ids))]
+			if op == "rstop-first" {
+				id = ids[0]
+			}
 			e.rstop(id)
 			hist = append(hist, fmt.Sprintf("R-%d", id))
 			rep.Count("reader-stop")
